@@ -243,3 +243,71 @@ Proof.
   rewrite (ef_vaults _ _ _ _ _ _ E). cbn [bc_vaults]. rewrite (find_v_id _ _ _ Hf).
   apply del_find_none. apply sorted_nodup. apply (i_sorted_v _ _ I).
 Qed.
+
+(* ---------- GetAmountOfOtherToken at rate 1:1 (vault.go:679-697) ---------- *)
+Lemma dquo_by_one a : dquo a P18 = a.
+Proof.
+  unfold dquo. pose proof P18_pos. rewrite P36_eq.
+  replace (a * (P18 * P18)) with (a * P18 * P18) by lia. rewrite Z.quot_mul by lia. apply chop_round_exact.
+Qed.
+
+(* the conversion is: q := Quo(amt, dec1) rounded half-even at 10^-18, then TruncateInt(q * dec2);
+   the two roundings bound the result against the exact amt * dec2 / dec1 *)
+Theorem other_token_spec dec1 amt dec2 t : other_token dec1 amt dec2 = Some t -> 0 < dec1 -> 0 <= amt -> 0 <= dec2 ->
+  let q := dquo (amt * P18) (dec1 * P18) in
+  t = Z.quot (q * dec2) P18 /\
+  t * dec1 * P18 <= (amt * P18 + dec1) * dec2 /\ (amt * P18 - dec1) * dec2 < (t + 1) * dec1 * P18.
+Proof.
+  unfold other_token, other_token_gen, dmul_c, dquo_c, dtrunc_int_c, chk_dec, chk_int. intros H Hd Ha Hd2. cbv zeta.
+  rewrite dmul_one in H. destruct (fits_dec (dec_of_int amt)); [|discriminate].
+  destruct (dec_of_int dec1 =? 0); [discriminate|]. destruct (fits_dec (dquo _ _)); [|discriminate].
+  change (P18 =? 0) with false in H. cbv iota in H. rewrite dquo_by_one in H.
+  destruct (fits_dec (dquo _ _)); [|discriminate]. rewrite dmul_int_exact_r in H.
+  destruct (fits_dec _); [|discriminate]. destruct (fits_int _); [|discriminate]. injection H as <-.
+  unfold dec_of_int, dtrunc_int. set (q := dquo (amt * P18) (dec1 * P18)).
+  pose proof P18_pos. pose proof (dquo_bounds (amt * P18) (dec1 * P18) ltac:(nia) ltac:(nia)) as [B1 B2]. fold q in B1, B2.
+  assert (Hq : 0 <= q) by (apply dquo_nonneg; nia).
+  split; [reflexivity|].
+  rewrite Z.quot_div_nonneg by nia.
+  pose proof (Z.div_mod (q * dec2) P18 ltac:(lia)) as Hdm. pose proof (Z.mod_pos_bound (q * dec2) P18 ltac:(lia)) as Hmb.
+  set (t := q * dec2 / P18) in *.
+  (* q*dec1 within [amt*P18 - dec1, amt*P18 + dec1] *)
+  assert (Q1 : q * dec1 <= amt * P18 + dec1) by nia.
+  assert (Q2 : amt * P18 - dec1 <= q * dec1) by nia.
+  split.
+  - assert (t * P18 <= q * dec2) by lia. nia.
+  - assert (q * dec2 < (t + 1) * P18) by lia. nia.
+Qed.
+
+(* MsgRepay spelled out: interest is paid first and goes to the collector out of existing supply;
+   only what exceeds the interest retires principal, and exactly that much is burnt *)
+Theorem repay_law c s f a e id amt ie s' : cfg_ok c -> f <> VAULT -> f <> COLL -> Inv01 c s ->
+  run c s (Repay f a e id amt ie) = Ok s' ->
+  exists v v' ep, find_v (vaults s) id = Some v /\ find_v (vaults s') id = Some v' /\ get_ep c e = Some ep /\ 0 <= ie /\
+    let interest := v_int v + ie in
+    let burnt := Z.max 0 (amt - interest) in
+    sup s (ep_out ep) - sup s' (ep_out ep) = burnt /\
+    v_out v' = v_out v - burnt /\ v_int v' = interest - (amt - burnt) /\
+    bal s' COLL (ep_out ep) - bal s COLL (ep_out ep) = amt - burnt /\
+    bal s f (ep_out ep) - bal s' f (ep_out ep) = amt /\
+    (forall x, x <> ep_out ep -> sup s' x = sup s x).
+Proof.
+  intros CK Hu Hc I H. cbn [run] in H. pose proof (inv_prods_exist c s I) as PE. pose proof (i_wf _ _ I) as W.
+  destruct (repay_effect c s f a e id amt ie s' PE W H) as (v0 & ep & Hf & Hep & Hp & _ & _ & Hie & Hamt & Hcase).
+  assert (Hep' : get_ep c (v_pair v0) = Some ep) by (rewrite Hp; exact Hep).
+  pose proof (cfg_ep_io _ _ _ CK Hep) as Hio. pose proof (find_v_id _ _ _ Hf) as Hvid.
+  destruct Hcase as [[Hle E]|(Hgt & _ & E)].
+  - destruct (fun X => effect_debt_ledger c s s' f _ _ ep Hu Hc X Hio E) as (L1 & L2 & L3); [exact Hep'|].
+    eexists v0, _, ep. split; [exact Hf|]. split.
+    { rewrite (ef_vaults _ _ _ _ _ _ E). cbn [bc_vaults]. apply find_put_same. cbn. exact Hvid. }
+    split; [exact Hep|]. split; [exact Hie|]. cbv zeta. cbn [bc_dout v_out v_int with_int with_out] in *.
+    replace (Z.max 0 (amt - (v_int v0 + ie))) with 0 by lia. repeat split; try lia.
+    intros x Hx. rewrite (ef_sup _ _ _ _ _ _ E). unfold at1. destruct (_ =? _); cbn [bc_dout v_out with_int]; lia.
+  - destruct (fun X => effect_debt_ledger c s s' f _ _ ep Hu Hc X Hio E) as (L1 & L2 & L3); [exact Hep'|].
+    eexists v0, _, ep. split; [exact Hf|]. split.
+    { rewrite (ef_vaults _ _ _ _ _ _ E). cbn [bc_vaults]. apply find_put_same. cbn. exact Hvid. }
+    split; [exact Hep|]. split; [exact Hie|]. cbv zeta. cbn [bc_dout v_out v_int with_int with_out] in *.
+    replace (Z.max 0 (amt - (v_int v0 + ie))) with (amt - (v_int v0 + ie)) by lia. repeat split; try lia.
+    intros x Hx. rewrite (ef_sup _ _ _ _ _ _ E). unfold at1. cbn [bc_pair v_pair with_int with_out]. rewrite (denom_out_ep _ _ _ Hep').
+    destruct (Z.eqb_spec x (ep_out ep)); [contradiction|lia].
+Qed.
